@@ -32,6 +32,7 @@ RV_PROGRAMS = [
     ("jalr-to-wrapped-address", "addi x1, x0, -4\njalr x0, x1, 0\naddi x3, x0, 3\n"),
     ("data-only", ".data\nd: .word 0xCAFEBABE, 7\nt: .string \"xyz\"\n"),
     ("runtime-fault", "addi x1, x0, 1\nlw x2, 0(x0)\naddi x3, x0, 3\n"),
+    ("fault-at-the-first-instruction", "lw x2, 0(x0)\naddi x3, x0, 3\n"),
     ("infinite-loop", "addi x1, x1, 1\nbeq x0, x0, -4\n"),
     ("parse-fail-line-1", "addi x1, x0\naddi x2, x0, 2\n"),
     ("parse-fail-after-data", ".data\nw: .word 0x11223344\ns: .string \"ab\"\n.text\naddi x1, x0, 1\nbeq x0, x0, nowhere\n"),
@@ -188,7 +189,13 @@ def explore_config(shard):
                     nsteps = steps + 1 if op[0] == "step" else steps
                     if kind == "fault":
                         p.counters["runtime-fault"] += 1
-                        terminal = True  # behaviour after a run-time fault is not part of the claim
+                        # behaviour after a run-time fault is not part of the claim — except that a simulation which still says
+                        # "not started" must take a load like a fresh one: only loads are offered behind such a fault
+                        terminal = bool(getattr(sim, "has_started", True))
+                        if not terminal:
+                            p.counters["fault-but-not-started"] += 1
+                            nsteps = HORIZON
+                            nprog = next(i for i, (n_, _t) in enumerate(P) if n_ in NONTERMINATING)
                     else:
                         if was_done:
                             p.counters["call-after-done"] += 1
